@@ -234,14 +234,19 @@ def vclass(v: Optional[Dict[str, str]]) -> Optional[Tuple[str, str]]:
 # fork pool: one fresh child per item, wall-clock kill, results over a pipe
 
 
-def _child_main(fn: Callable[[Any], Any], item: Any, wfd: int, timeout_s: float) -> None:
+def _child_main(fn: Callable[[Any], Any], item: Any, wfd: int, timeout_s: float,
+                watchdog: bool = True) -> None:
     code = 0
     try:
-        try:
-            faulthandler.enable(file=sys.stderr)
-            faulthandler.dump_traceback_later(max(1.0, timeout_s - 1.0), exit=False)
-        except Exception:
-            pass
+        if watchdog:
+            # never in a process that forks again or was forked from one with a watchdog:
+            # faulthandler's watchdog thread does not survive fork() and re-arming it in the
+            # child waits for that thread forever
+            try:
+                faulthandler.enable(file=sys.stderr)
+                faulthandler.dump_traceback_later(max(1.0, timeout_s - 1.0), exit=False)
+            except Exception:
+                pass
         try:
             out = {"status": "ok", "value": fn(item)}
         except BaseException as e:  # harness exception: never a VIOLATION, never a pass
@@ -273,6 +278,7 @@ def fork_map(
     nproc: int,
     timeout_s: float,
     stop: Optional[Callable[[], bool]] = None,
+    watchdog: bool = True,
 ) -> Iterator[Tuple[int, Any, str, Any]]:
     """Run `fn(item)` in a freshly forked child per item, at most `nproc` at a time.
     Yields (index, item, status, value) in completion order; status in
@@ -298,7 +304,7 @@ def fork_map(
                         os.close(other)
                     except OSError:
                         pass
-                _child_main(fn, item, wfd, timeout_s)
+                _child_main(fn, item, wfd, timeout_s, watchdog)
             os.close(wfd)
             live[rfd] = {
                 "pid": pid,
